@@ -365,3 +365,565 @@ Proof.
     + rewrite Hl, !app_length. cbn [length]. lia.
     + rewrite Hb in Hc. rewrite !app_length, !map_length in *. cbn [length] in *. rewrite !app_length in *. cbn [length] in *. lia.
 Qed.
+
+(* ---------- swap_remove ---------- *)
+Lemma set_slot_mid (c1 : list N) (a : N) (c2 : list N) (rest : list slot) x :
+  set_slot (map Some (c1 ++ a :: c2) ++ rest) (length c1) x = map Some (c1 ++ x :: c2) ++ rest.
+Proof.
+  unfold set_slot. rewrite !map_app. cbn [map]. rewrite <- !app_assoc. cbn [app].
+  replace (length c1) with (length (map Some c1) + 0)%nat by (rewrite map_length; lia).
+  rewrite overwrite_app_l. rewrite overwrite_0 by (cbn [length]; lia). reflexivity.
+Qed.
+
+Theorem swap_remove_spec e v c i :
+  repr e v c ->
+  match swap_remove v i with
+  | Ret (v', x) => i < v_len v /\ x = nth (nn i) c 0 /\
+                   repr e v' (removelast (firstn (nn i) c ++ last c 0 :: skipn (nn i + 1) c))
+  | Panic _ => v_len v <= i
+  end.
+Proof.
+  intros ((rest & Hb) & Hl & Hc & He). unfold swap_remove.
+  destruct (i <? v_len v) eqn:EI; [|apply N.ltb_ge in EI; exact EI].
+  apply N.ltb_lt in EI.
+  assert (Hi : (nn i < length c)%nat) by (unfold nn; lia).
+  destruct (split_at c (nn i)) as (c1 & c2 & -> & L1); [lia|].
+  destruct c2 as [|a c2]; [rewrite app_nil_r in Hi; lia|].
+  conj; [exact EI| |].
+  - rewrite Hb. rewrite get_slot_repr by exact Hi. reflexivity.
+  - rewrite <- L1.
+    assert (F : firstn (length c1) (c1 ++ a :: c2) = c1) by apply firstn_app_exact.
+    assert (S : skipn (length c1 + 1) (c1 ++ a :: c2) = c2)
+      by (replace (length c1 + 1)%nat with (S (length c1)) by lia; apply skipn_succ_app).
+    rewrite F, S.
+    assert (Hlast : get_slot (v_buf v) (nn (v_len v - 1)) = last (c1 ++ a :: c2) 0).
+    { rewrite Hb. rewrite get_slot_repr by (unfold nn; lia).
+      replace (nn (v_len v - 1)) with (length (c1 ++ a :: c2) - 1)%nat by (unfold nn; lia).
+      generalize (c1 ++ a :: c2). intros l. destruct l as [|y l] using rev_ind; [reflexivity|].
+      rewrite app_length. cbn [length]. replace (length l + 1 - 1)%nat with (length l) by lia.
+      rewrite app_nth2 by lia. rewrite Nat.sub_diag. rewrite last_last. reflexivity. }
+    rewrite Hlast. set (z := last (c1 ++ a :: c2) 0).
+    unfold repr, v_cap in *. cbn [v_buf v_len]. rewrite Hb, set_slot_mid.
+    set (c' := c1 ++ z :: c2).
+    assert (Hne : c' <> []) by (unfold c'; destruct c1; discriminate).
+    destruct (exists_last Hne) as (c0 & y & Ec). rewrite Ec, removelast_last.
+    conj; [| | | exact He].
+    + exists (Some y :: rest). rewrite map_app. cbn [map]. rewrite <- app_assoc. reflexivity.
+    + assert (length c' = length (c1 ++ a :: c2)) by (unfold c'; rewrite !app_length; reflexivity).
+      rewrite Ec, app_length in H. cbn [length] in H. lia.
+    + assert (H : length c' = length (c1 ++ a :: c2)) by (unfold c'; rewrite !app_length; reflexivity).
+      rewrite Hb in Hc. rewrite app_length, map_length in Hc. rewrite <- Ec. rewrite app_length, map_length, H. exact Hc.
+Qed.
+
+(* ---------- truncate: drops from the back, exactly the elements cut off ---------- *)
+Lemma firstn_succ_nth {A} (l : list A) k d :
+  (k < length l)%nat -> firstn (S k) l = firstn k l ++ [nth k l d].
+Proof.
+  revert k. induction l as [|a l IH]; intros k H; [cbn in H; lia|].
+  destruct k; [reflexivity|]. cbn [firstn nth app]. f_equal. apply IH. cbn in H. lia.
+Qed.
+
+Lemma nth_skipn' {A} (l : list A) n i d : nth i (skipn n l) d = nth (n + i) l d.
+Proof.
+  revert l. induction n as [|n IH]; intros l; [reflexivity|].
+  destruct l as [|a l]; [destruct i; reflexivity|]. cbn [skipn plus nth]. apply IH.
+Qed.
+
+Lemma truncate_loop_spec (c : list N) (rest : list slot) boom t :
+  forall k cur acc, (k <= cur)%nat -> (cur <= length c)%nat ->
+  exists m b, truncate_loop (map Some c ++ rest) boom t cur k acc
+              = (m, acc ++ rev (firstn (cur - m) (skipn m c)), b) /\
+              (cur - k <= m)%nat /\ (m <= cur)%nat /\ (b = false -> m = (cur - k)%nat).
+Proof.
+  induction k as [|k IH]; intros cur acc Hk Hc; cbn [truncate_loop].
+  - exists cur, false. rewrite Nat.sub_diag. cbn [firstn rev]. rewrite app_nil_r. conj; try reflexivity; lia.
+  - assert (Hx : get_slot (map Some c ++ rest) (cur - 1) = nth (cur - 1) c 0) by (apply get_slot_repr; lia).
+    rewrite Hx.
+    assert (Hone : firstn 1 (skipn (cur - 1) c) = [nth (cur - 1) c 0]).
+    { rewrite <- (firstn_skipn (cur - 1) c) at 2.
+      rewrite app_nth2 by (rewrite firstn_length; lia). rewrite firstn_length.
+      replace (cur - 1 - Nat.min (cur - 1) (length c))%nat with 0%nat by lia.
+      destruct (skipn (cur - 1) c) eqn:E; [|reflexivity].
+      assert (length (skipn (cur - 1) c) = 0%nat) by (rewrite E; reflexivity). rewrite skipn_length in H. lia. }
+    destruct (existsb (N.eqb (nth (cur - 1) c 0)) boom).
+    + exists (cur - 1)%nat, true. replace (cur - (cur - 1))%nat with 1%nat by lia. rewrite Hone.
+      conj; try reflexivity; try lia; try discriminate.
+    + destruct (IH (cur - 1)%nat (acc ++ [nth (cur - 1) c 0])) as (m & b & E & H1 & H2 & H3); [lia | lia |].
+      exists m, b. rewrite E. conj; try lia.
+      * f_equal. f_equal. rewrite <- app_assoc. f_equal.
+        replace (cur - m)%nat with (S (cur - 1 - m)) by lia.
+        rewrite (firstn_succ_nth _ _ 0) by (rewrite skipn_length; lia).
+        rewrite rev_app_distr. cbn [rev app]. rewrite nth_skipn'.
+        replace (m + (cur - 1 - m))%nat with (cur - 1)%nat by lia. reflexivity.
+      * intros Hb. rewrite (H3 Hb). lia.
+Qed.
+
+Theorem truncate_spec e v c n boom :
+  repr e v c ->
+  exists m, repr e (truncate_state v n boom) (firstn m c) /\
+            f_drops (snd (truncate v n boom)) = rev (skipn m c) /\
+            (N.to_nat n <= m \/ length c <= m)%nat /\
+            (forall v', fst (truncate v n boom) = Ret v' -> v' = truncate_state v n boom /\ m = Nat.min (nn n) (length c)).
+Proof.
+  intros ((rest & Hb) & Hl & Hc & He). unfold truncate, truncate_state.
+  destruct (n <? v_len v) eqn:E.
+  - apply N.ltb_lt in E. rewrite Hb.
+    destruct (truncate_loop_spec c rest boom (nn n) (nn (v_len v) - nn n) (nn (v_len v)) [])
+      as (m & b & EL & H1 & H2 & H3); [lia | unfold nn; lia |].
+    rewrite EL. cbn [fst snd f_drops app].
+    assert (Hlen : nn (v_len v) = length c) by (unfold nn; lia).
+    exists m. conj.
+    + unfold repr, v_cap in *. cbn [v_buf v_len].
+      conj; [| rewrite firstn_length; lia | rewrite Hb in Hc; exact Hc | exact He].
+      exists (map Some (skipn m c) ++ rest). rewrite app_assoc, <- map_app, firstn_skipn. reflexivity.
+    + rewrite Hlen. rewrite firstn_all2 by (rewrite skipn_length; lia). reflexivity.
+    + left. unfold nn in *. lia.
+    + intros v'. destruct b; [discriminate|]. intros Hv; inversion Hv; subst. split; [reflexivity|].
+      rewrite (H3 eq_refl). unfold nn in *. lia.
+  - apply N.ltb_ge in E. cbn [fst snd f_drops]. exists (length c). conj.
+    + rewrite firstn_all. unfold repr. conj; [exists rest; exact Hb | exact Hl | exact Hc | exact He].
+    + rewrite skipn_all. reflexivity.
+    + right. lia.
+    + intros v' Hv; inversion Hv; subst. split; [reflexivity|]. unfold nn. lia.
+Qed.
+
+(* ---------- DrainFilter (retain, drain_filter) ---------- *)
+(* loop invariant: the kept elements are compacted at the front, followed by del
+   stale slots, followed by the elements not looked at yet *)
+Definition dfJ (c : list N) (rest : list slot) (buf : list slot) (idx del : nat) (kept : list N) : Prop :=
+  (idx <= length c)%nat /\ (del <= idx)%nat /\ length kept = (idx - del)%nat /\
+  exists stale, length stale = del /\
+    buf = map Some kept ++ stale ++ map Some (skipn idx c) ++ rest.
+
+Lemma skipn_cons_nth (c : list N) idx : (idx < length c)%nat ->
+  skipn idx c = nth idx c 0 :: skipn (S idx) c.
+Proof.
+  revert idx. induction c as [|a c IH]; intros idx H; [cbn in H; lia|].
+  destruct idx; [reflexivity|]. cbn [skipn nth]. apply IH. cbn in H. lia.
+Qed.
+
+(* keeping element idx: it is copied down over the first stale slot (if any) *)
+Lemma dfJ_keep c rest buf idx del kept :
+  dfJ c rest buf idx del kept -> (idx < length c)%nat ->
+  get_slot buf idx = nth idx c 0 /\
+  dfJ c rest (if Nat.eqb del 0 then buf else copy_within buf idx (idx - del) 1) (idx + 1) del
+      (kept ++ [nth idx c 0]).
+Proof.
+  intros (H1 & H2 & H3 & stale & Hs & Hb) Hlt.
+  set (x := nth idx c 0).
+  assert (Hsk : skipn idx c = x :: skipn (S idx) c) by (apply skipn_cons_nth; exact Hlt).
+  assert (Hpre : length (map Some kept ++ stale) = idx) by (rewrite app_length, map_length; lia).
+  assert (Hget : get_slot buf idx = x).
+  { rewrite Hb, Hsk. cbn [map]. unfold get_slot. rewrite app_assoc.
+    rewrite app_nth2 by lia. rewrite Hpre, Nat.sub_diag. reflexivity. }
+  split; [exact Hget|].
+  unfold dfJ. rewrite app_length. cbn [length]. replace (idx + 1)%nat with (S idx) by lia.
+  conj; try lia.
+  destruct (Nat.eqb del 0) eqn:E.
+  - apply Nat.eqb_eq in E. subst del. destruct stale; [|discriminate]. exists []. split; [reflexivity|].
+    rewrite Hb, Hsk. cbn [app map]. rewrite map_app. cbn [map]. rewrite <- app_assoc. reflexivity.
+  - apply Nat.eqb_neq in E. destruct stale as [|s0 stale']; [cbn in Hs; lia|].
+    exists (stale' ++ [Some x]). split; [rewrite app_length; cbn [length] in *; lia|].
+    unfold copy_within. rewrite Hb, Hsk. cbn [map].
+    set (B := map Some kept ++ (s0 :: stale') ++ (Some x :: map Some (skipn (S idx) c)) ++ rest).
+    assert (HB : B = (map Some kept ++ (s0 :: stale')) ++ Some x :: (map Some (skipn (S idx) c) ++ rest))
+      by (unfold B; rewrite <- !app_assoc; reflexivity).
+    assert (Hsrc : firstn 1 (skipn idx B) = [Some x]).
+    { rewrite HB. rewrite <- Hpre at 1. rewrite skipn_app_exact. reflexivity. }
+    rewrite Hsrc. unfold B.
+    replace (idx - del)%nat with (length (map Some kept) + 0)%nat by (rewrite map_length; lia).
+    rewrite overwrite_app_l. rewrite overwrite_0 by (cbn [length]; rewrite app_length; cbn [length]; lia).
+    cbn [length skipn app]. rewrite map_app. cbn [map]. rewrite <- !app_assoc. reflexivity.
+Qed.
+
+(* skipping element idx (handed out, or leaked by a panicking predicate): its slot becomes stale *)
+Lemma dfJ_skip c rest buf idx del kept :
+  dfJ c rest buf idx del kept -> (idx < length c)%nat ->
+  get_slot buf idx = nth idx c 0 /\ dfJ c rest buf (idx + 1) (del + 1) kept.
+Proof.
+  intros (H1 & H2 & H3 & stale & Hs & Hb) Hlt.
+  set (x := nth idx c 0).
+  assert (Hsk : skipn idx c = x :: skipn (S idx) c) by (apply skipn_cons_nth; exact Hlt).
+  assert (Hpre : length (map Some kept ++ stale) = idx) by (rewrite app_length, map_length; lia).
+  split.
+  - rewrite Hb, Hsk. cbn [map]. unfold get_slot. rewrite app_assoc.
+    rewrite app_nth2 by lia. rewrite Hpre, Nat.sub_diag. reflexivity.
+  - unfold dfJ. replace (idx + 1)%nat with (S idx) by lia. conj; try lia.
+    exists (stale ++ [Some x]). split; [rewrite app_length; cbn [length]; lia|].
+    rewrite Hb, Hsk. cbn [map]. rewrite <- !app_assoc. reflexivity.
+Qed.
+
+(* the classification of the elements by the predicate's answers *)
+Definition is_no (a : cans) : bool := match a with No => true | _ => false end.
+Fixpoint kept_of (c : list N) (ans : list cans) : list N :=
+  match c, ans with
+  | x :: c', a :: ans' => if is_no a then x :: kept_of c' ans' else kept_of c' ans'
+  | _, _ => []
+  end.
+Fixpoint outs_of (c : list N) (ans : list cans) : list N :=      (* handed out, dropped or leaked *)
+  match c, ans with
+  | x :: c', a :: ans' => if is_no a then outs_of c' ans' else x :: outs_of c' ans'
+  | _, _ => []
+  end.
+
+Lemma df_next_S buf old_len idx del ans fuel :
+  df_next buf old_len idx del ans (S fuel) =
+  if Nat.eqb idx old_len then (buf, idx, del, ans, DfDone)
+  else match ans with
+       | [] => (buf, idx, del, ans, DfStarved)
+       | Boom :: rest => (buf, (idx + 1)%nat, (del + 1)%nat, rest, DfBoom)
+       | Yes :: rest => (buf, (idx + 1)%nat, (del + 1)%nat, rest, DfItem (get_slot buf idx))
+       | No :: rest =>
+           df_next (if Nat.eqb del 0 then buf else copy_within buf idx (idx - del) 1)
+                   old_len (idx + 1) del rest fuel
+       end.
+Proof. reflexivity. Qed.
+
+(* one call of next(): the elements up to the one returned are classified by the answers *)
+Lemma df_next_spec c rest : forall fuel buf idx del kept ans,
+  dfJ c rest buf idx del kept -> (length c - idx < fuel)%nat ->
+  exists buf' idx' del' ans' r kept',
+    df_next buf (length c) idx del ans fuel = (buf', idx', del', ans', r) /\
+    dfJ c rest buf' idx' del' kept' /\ (idx <= idx')%nat /\
+    ans' = skipn (idx' - idx) ans /\
+    match r with
+    | DfItem x =>
+        kept' = kept ++ kept_of (firstn (idx' - idx) (skipn idx c)) ans /\
+        outs_of (firstn (idx' - idx) (skipn idx c)) ans = [x] /\ del' = (del + 1)%nat /\
+        (idx' - idx <= length ans)%nat
+    | DfBoom =>
+        kept' = kept ++ kept_of (firstn (idx' - idx) (skipn idx c)) ans /\
+        (exists x, outs_of (firstn (idx' - idx) (skipn idx c)) ans = [x]) /\ del' = (del + 1)%nat /\
+        (idx' - idx <= length ans)%nat
+    | DfDone =>
+        idx' = length c /\ kept' = kept ++ kept_of (skipn idx c) ans /\
+        outs_of (skipn idx c) ans = [] /\ del' = del /\ (length c - idx <= length ans)%nat
+    | DfStarved =>
+        kept' = kept ++ kept_of (skipn idx c) ans /\ outs_of (skipn idx c) ans = [] /\ del' = del /\
+        (length ans < length c - idx)%nat
+    end.
+Proof.
+  induction fuel as [|fuel IH]; intros buf idx del kept ans HJ Hf; [lia|].
+  rewrite df_next_S.
+  destruct (Nat.eqb idx (length c)) eqn:E.
+  - apply Nat.eqb_eq in E. subst idx.
+    exists buf, (length c), del, ans, DfDone, kept. rewrite Nat.sub_diag, skipn_all. cbn [skipn kept_of outs_of].
+    rewrite app_nil_r. conj; try reflexivity; try assumption; try lia.
+  - apply Nat.eqb_neq in E.
+    assert (Hlt : (idx < length c)%nat) by (destruct HJ as (H1 & _); lia).
+    assert (Hsk : skipn idx c = nth idx c 0 :: skipn (S idx) c) by (apply skipn_cons_nth; exact Hlt).
+    destruct ans as [|a ans1].
+    + exists buf, idx, del, [], DfStarved, kept. rewrite Nat.sub_diag. cbn [skipn].
+      rewrite Hsk. cbn [kept_of outs_of length]. rewrite app_nil_r.
+      conj; try reflexivity; try assumption; try lia.
+    + destruct a.
+      * (* Yes: handed out *)
+        destruct (dfJ_skip c rest buf idx del kept HJ Hlt) as [Hg HJ'].
+        exists buf, (idx + 1)%nat, (del + 1)%nat, ans1, (DfItem (get_slot buf idx)), kept.
+        replace (idx + 1 - idx)%nat with 1%nat by lia. rewrite Hsk. cbn [firstn skipn kept_of outs_of is_no length].
+        rewrite app_nil_r, Hg. conj; try reflexivity; try assumption; try lia.
+      * (* No: kept, go on *)
+        destruct (dfJ_keep c rest buf idx del kept HJ Hlt) as [Hg HJ'].
+        destruct (IH _ (idx + 1)%nat del (kept ++ [nth idx c 0]) ans1 HJ') as
+            (buf' & idx' & del' & ans' & r & kept' & E1 & J1 & L1 & A1 & R1); [lia|].
+        exists buf', idx', del', ans', r, kept'. rewrite E1.
+        assert (Hsplit : (idx' - idx)%nat = S (idx' - (idx + 1))) by lia.
+        assert (Hsk1 : skipn (idx + 1) c = skipn (S idx) c) by (f_equal; lia).
+        conj; try reflexivity; try assumption; try lia.
+        { rewrite A1. rewrite Hsplit. reflexivity. }
+        destruct r.
+        -- destruct R1 as (K1 & O1 & D1 & N1). rewrite Hsplit, Hsk. cbn [firstn kept_of outs_of is_no length].
+           rewrite Hsk1 in K1, O1. rewrite K1, <- app_assoc. cbn [app]. conj; try reflexivity; try assumption; lia.
+        -- destruct R1 as (I1 & K1 & O1 & D1 & N1). rewrite Hsk. cbn [kept_of outs_of is_no length].
+           rewrite Hsk1 in K1, O1. rewrite K1, <- app_assoc. cbn [app]. conj; try reflexivity; try assumption; lia.
+        -- destruct R1 as (K1 & O1 & D1 & N1). rewrite Hsplit, Hsk. cbn [firstn kept_of outs_of is_no length].
+           rewrite Hsk1 in K1, O1. rewrite K1, <- app_assoc. cbn [app]. conj; try reflexivity; try assumption; lia.
+        -- destruct R1 as (K1 & O1 & D1 & N1). rewrite Hsk. cbn [kept_of outs_of is_no length].
+           rewrite Hsk1 in K1, O1. rewrite K1, <- app_assoc. cbn [app]. conj; try reflexivity; try assumption; lia.
+      * (* Boom: the element is leaked *)
+        destruct (dfJ_skip c rest buf idx del kept HJ Hlt) as [Hg HJ'].
+        exists buf, (idx + 1)%nat, (del + 1)%nat, ans1, DfBoom, kept.
+        replace (idx + 1 - idx)%nat with 1%nat by lia. rewrite Hsk. cbn [firstn skipn kept_of outs_of is_no length].
+        rewrite app_nil_r. conj; try reflexivity; try assumption; try lia.
+        exists (nth idx c 0). reflexivity.
+Qed.
+
+(* ---------- conservation: every element is kept, handed out, dropped or leaked — once ---------- *)
+From Coq Require Import Permutation.
+
+Lemma kept_outs_perm l : forall ans, (length l <= length ans)%nat ->
+  Permutation (kept_of l ans ++ outs_of l ans) l.
+Proof.
+  induction l as [|x l IH]; intros ans H; [destruct ans; reflexivity|].
+  destruct ans as [|a ans]; [cbn in H; lia|]. cbn [kept_of outs_of].
+  assert (H' : (length l <= length ans)%nat) by (cbn in H; lia).
+  destruct (is_no a).
+  - cbn [app]. constructor. apply IH. exact H'.
+  - apply Permutation_sym. apply Permutation_cons_app. apply Permutation_sym. apply IH. exact H'.
+Qed.
+
+Lemma dfJ_buf_length c rest buf idx del kept :
+  dfJ c rest buf idx del kept -> length buf = (length c + length rest)%nat.
+Proof.
+  intros (H1 & H2 & H3 & stale & Hs & Hb). rewrite Hb.
+  rewrite !app_length, !map_length, skipn_length. lia.
+Qed.
+
+Lemma skipn_skipn' {A} (l : list A) a b : skipn a (skipn b l) = skipn (b + a) l.
+Proof.
+  revert l. induction b as [|b IH]; intros l; [reflexivity|].
+  destruct l as [|x l]; [rewrite !skipn_nil; reflexivity|]. cbn [skipn plus]. apply IH.
+Qed.
+
+(* progress of the scan: what was looked at is split between kept, out (items, leaked) *)
+Definition df_progress (c : list N) (kept kept' : list N) (idx idx' : nat) (outs : list N) : Prop :=
+  Permutation (kept' ++ outs ++ skipn idx' c) (kept ++ skipn idx c).
+
+Lemma df_progress_step c kept idx idx' ans outs :
+  (idx <= idx')%nat -> (idx' <= length c)%nat -> (idx' - idx <= length ans)%nat ->
+  outs_of (firstn (idx' - idx) (skipn idx c)) ans = outs ->
+  df_progress c kept (kept ++ kept_of (firstn (idx' - idx) (skipn idx c)) ans) idx idx' outs.
+Proof.
+  intros H1 H2 H3 <-. unfold df_progress.
+  set (seg := firstn (idx' - idx) (skipn idx c)).
+  assert (Hseg : skipn idx c = seg ++ skipn idx' c).
+  { unfold seg. rewrite <- (firstn_skipn (idx' - idx) (skipn idx c)) at 1. f_equal.
+    rewrite skipn_skipn'. f_equal. lia. }
+  rewrite Hseg. rewrite <- !app_assoc. apply Permutation_app_head.
+  rewrite !app_assoc. apply Permutation_app_tail.
+  apply kept_outs_perm. unfold seg. rewrite firstn_length, skipn_length. lia.
+Qed.
+
+Lemma df_progress_trans c k0 k1 k2 i0 i1 i2 o1 o2 :
+  df_progress c k0 k1 i0 i1 o1 -> df_progress c k1 k2 i1 i2 o2 ->
+  df_progress c k0 k2 i0 i2 (o1 ++ o2).
+Proof.
+  unfold df_progress. intros P1 P2.
+  eapply Permutation_trans; [|exact P1].
+  (* k2 ++ (o1 ++ o2) ++ tail2  ~  k1 ++ o1 ++ tail1, knowing k2 ++ o2 ++ tail2 ~ k1 ++ tail1 *)
+  apply Permutation_trans with (o1 ++ (k2 ++ o2 ++ skipn i2 c)).
+  - rewrite <- !app_assoc. rewrite !app_assoc. rewrite <- !app_assoc.
+    apply Permutation_trans with ((k2 ++ o1) ++ o2 ++ skipn i2 c); [rewrite <- !app_assoc; reflexivity|].
+    apply Permutation_trans with ((o1 ++ k2) ++ o2 ++ skipn i2 c);
+      [apply Permutation_app_tail; apply Permutation_app_comm | rewrite <- !app_assoc; reflexivity].
+  - apply Permutation_trans with (o1 ++ (k1 ++ skipn i1 c)); [apply Permutation_app_head; exact P2|].
+    rewrite !app_assoc. apply Permutation_app_tail. apply Permutation_app_comm.
+Qed.
+
+Lemma df_progress_refl c k i : df_progress c k k i i [].
+Proof. unfold df_progress. reflexivity. Qed.
+
+(* for_each(drop) / the caller's next() calls: a sequence of next() *)
+Inductive df_end := EndDone | EndBoom (x : N) | EndStopped.
+
+Lemma df_drain_spec c rest : forall fuel buf idx del kept ans acc,
+  dfJ c rest buf idx del kept -> (length c - idx <= length ans)%nat -> (length c - idx < fuel)%nat ->
+  exists buf' idx' del' ans' items r kept',
+    df_drain buf (length c) idx del ans fuel acc = (buf', idx', del', ans', acc ++ items, r) /\
+    dfJ c rest buf' idx' del' kept' /\ (length c - idx' <= length ans')%nat /\
+    ((r = DfDone /\ idx' = length c /\ df_progress c kept kept' idx idx' items) \/
+     (r = DfBoom /\ exists x, df_progress c kept kept' idx idx' (items ++ [x]))).
+Proof.
+  induction fuel as [|fuel IH]; intros buf idx del kept ans acc HJ Ha Hf; [lia|].
+  cbn [df_drain].
+  destruct (df_next_spec c rest (S (length c)) buf idx del kept ans HJ) as
+      (buf1 & idx1 & del1 & ans1 & r & kept1 & E1 & J1 & L1 & A1 & R1); [lia|].
+  rewrite E1.
+  assert (Hi1 : (idx1 <= length c)%nat) by (destruct J1 as (H & _); exact H).
+  destruct r.
+  - (* an item: continue *)
+    destruct R1 as (K1 & O1 & D1 & N1).
+    assert (P1 : df_progress c kept kept1 idx idx1 [x]).
+    { rewrite K1. apply df_progress_step; try assumption. }
+    assert (Hlt : (idx < idx1)%nat).
+    { destruct (Nat.eq_dec idx idx1) as [->|]; [|lia]. rewrite Nat.sub_diag in O1. discriminate. }
+    destruct (IH buf1 idx1 del1 kept1 ans1 (acc ++ [x]) J1) as
+        (buf2 & idx2 & del2 & ans2 & items & r2 & kept2 & E2 & J2 & A2 & R2).
+    { rewrite A1, skipn_length. lia. }
+    { lia. }
+    exists buf2, idx2, del2, ans2, (x :: items), r2, kept2. rewrite E2.
+    conj; try assumption.
+    + rewrite <- app_assoc. reflexivity.
+    + destruct R2 as [(-> & I2 & P2)|(-> & y & P2)].
+      * left. conj; try reflexivity; try assumption.
+        apply (df_progress_trans c kept kept1 kept2 idx idx1 idx2 [x] items P1 P2).
+      * right. split; [reflexivity|]. exists y.
+        apply (df_progress_trans c kept kept1 kept2 idx idx1 idx2 [x] (items ++ [y]) P1 P2).
+  - destruct R1 as (I1 & K1 & O1 & D1 & N1).
+    exists buf1, idx1, del1, ans1, [], DfDone, kept1. rewrite app_nil_r.
+    conj; try reflexivity; try assumption; [rewrite I1; lia|].
+    left. conj; try reflexivity; try assumption.
+    rewrite K1. unfold df_progress. rewrite I1, skipn_all. cbn [app]. rewrite app_nil_r.
+    apply Permutation_app_head.
+    pose proof (kept_outs_perm (skipn idx c) ans) as P. rewrite O1, app_nil_r in P. apply P.
+    rewrite skipn_length. exact N1.
+  - destruct R1 as (K1 & (x & O1) & D1 & N1).
+    exists buf1, idx1, del1, ans1, [], DfBoom, kept1. rewrite app_nil_r.
+    conj; try reflexivity; try assumption; [rewrite A1, skipn_length; lia|].
+    right. split; [reflexivity|]. exists x. cbn [app]. rewrite K1.
+    apply df_progress_step; try assumption.
+  - destruct R1 as (_ & _ & _ & N1). lia.
+Qed.
+
+Lemma df_take_spec c rest : forall take buf idx del kept ans acc,
+  dfJ c rest buf idx del kept -> (length c - idx <= length ans)%nat ->
+  exists buf' idx' del' ans' items r kept',
+    df_take buf (length c) idx del ans take acc = (buf', idx', del', ans', acc ++ items, r) /\
+    dfJ c rest buf' idx' del' kept' /\ (length c - idx' <= length ans')%nat /\ (idx <= idx')%nat /\
+    ((r <> DfBoom /\ df_progress c kept kept' idx idx' items) \/
+     (r = DfBoom /\ exists x, df_progress c kept kept' idx idx' (items ++ [x]))).
+Proof.
+  induction take as [|take IH]; intros buf idx del kept ans acc HJ Ha; cbn [df_take].
+  - exists buf, idx, del, ans, [], DfDone, kept. rewrite app_nil_r.
+    conj; try reflexivity; try assumption; try lia. left. split; [discriminate | apply df_progress_refl].
+  - destruct (df_next_spec c rest (S (length c)) buf idx del kept ans HJ) as
+        (buf1 & idx1 & del1 & ans1 & r & kept1 & E1 & J1 & L1 & A1 & R1); [lia|].
+    rewrite E1.
+    assert (Hi1 : (idx1 <= length c)%nat) by (destruct J1 as (H & _); exact H).
+    destruct r.
+    + destruct R1 as (K1 & O1 & D1 & N1).
+      assert (P1 : df_progress c kept kept1 idx idx1 [x]).
+      { rewrite K1. apply df_progress_step; try assumption. }
+      destruct (IH buf1 idx1 del1 kept1 ans1 (acc ++ [x]) J1) as
+          (buf2 & idx2 & del2 & ans2 & items & r2 & kept2 & E2 & J2 & A2 & L2 & R2).
+      { rewrite A1, skipn_length. lia. }
+      exists buf2, idx2, del2, ans2, (x :: items), r2, kept2. rewrite E2.
+      conj; try assumption; try lia.
+      * rewrite <- app_assoc. reflexivity.
+      * destruct R2 as [(Hn & P2)|(-> & y & P2)].
+        -- left. split; [exact Hn|].
+           apply (df_progress_trans c kept kept1 kept2 idx idx1 idx2 [x] items P1 P2).
+        -- right. split; [reflexivity|]. exists y.
+           apply (df_progress_trans c kept kept1 kept2 idx idx1 idx2 [x] (items ++ [y]) P1 P2).
+    + destruct R1 as (I1 & K1 & O1 & D1 & N1).
+      exists buf1, idx1, del1, ans1, [], DfDone, kept1. rewrite app_nil_r.
+      conj; try reflexivity; try assumption; try lia; try (rewrite I1; lia).
+      left. split; [discriminate|].
+      rewrite K1. unfold df_progress. rewrite I1, skipn_all. cbn [app]. rewrite app_nil_r.
+      apply Permutation_app_head.
+      pose proof (kept_outs_perm (skipn idx c) ans) as P. rewrite O1, app_nil_r in P. apply P.
+      rewrite skipn_length. exact N1.
+    + destruct R1 as (K1 & (x & O1) & D1 & N1).
+      exists buf1, idx1, del1, ans1, [], DfBoom, kept1. rewrite app_nil_r.
+      conj; try reflexivity; try assumption; try lia; try (rewrite A1, skipn_length; lia).
+      right. split; [reflexivity|]. exists x. cbn [app]. rewrite K1.
+      apply df_progress_step; try assumption.
+    + destruct R1 as (_ & _ & _ & N1). lia.
+Qed.
+
+Lemma dfJ_init c rest : dfJ c rest (map Some c ++ rest) 0 0 [].
+Proof.
+  unfold dfJ. conj; try lia; try reflexivity. exists []. split; reflexivity.
+Qed.
+
+Lemma dfJ_final_repr e v c rest buf idx del kept :
+  v_buf v = map Some c ++ rest -> e_size e * v_cap v <= ISIZE_MAX -> 0 < e_size e ->
+  dfJ c rest buf idx del kept -> idx = length c ->
+  repr e (mkVec buf (N.of_nat (length c - del))) kept.
+Proof.
+  intros Hb Hc He HJ Hi. pose proof (dfJ_buf_length _ _ _ _ _ _ HJ) as HL.
+  destruct HJ as (H1 & H2 & H3 & stale & Hs & Hbuf). subst idx.
+  unfold repr, v_cap in *. cbn [v_buf v_len]. conj; [| lia | | exact He].
+  - exists (stale ++ rest). rewrite Hbuf, skipn_all. reflexivity.
+  - rewrite HL. rewrite Hb, app_length, map_length in Hc. exact Hc.
+Qed.
+
+Lemma dfJ_empty_repr e v c rest buf idx del kept :
+  v_buf v = map Some c ++ rest -> e_size e * v_cap v <= ISIZE_MAX -> 0 < e_size e ->
+  dfJ c rest buf idx del kept -> repr e (mkVec buf 0) [].
+Proof.
+  intros Hb Hc He HJ. pose proof (dfJ_buf_length _ _ _ _ _ _ HJ) as HL.
+  unfold repr, v_cap in *. cbn [v_buf v_len]. conj; [exists buf; reflexivity | reflexivity | | exact He].
+  rewrite HL. rewrite Hb, app_length, map_length in Hc. exact Hc.
+Qed.
+
+Lemma perm_swap3 {A} (a b c : list A) : Permutation (a ++ b ++ c) (b ++ a ++ c).
+Proof. rewrite !app_assoc. apply Permutation_app_tail. apply Permutation_app_comm. Qed.
+
+(* C16 for drain_filter / retain: whatever the predicate does (panics included),
+   every element ends up in exactly one place: still in the vector, handed to
+   the caller, dropped, or leaked *)
+Theorem drain_filter_safe e v c ans take :
+  repr e v c -> (length c <= length ans)%nat ->
+  let d := drain_filter v ans take in
+  exists kept leaked,
+    repr e (df_vec d) kept /\
+    Permutation (kept ++ df_taken d ++ df_dropped d ++ leaked) c /\
+    (df_panicked d = false -> leaked = []).
+Proof.
+  intros ((rest & Hb) & Hl & Hc & He) Ha d. unfold d, drain_filter.
+  assert (Hlen : nn (v_len v) = length c) by (unfold nn; lia). rewrite Hlen, Hb.
+  destruct (df_take_spec c rest take (map Some c ++ rest) 0 0 [] ans [] (dfJ_init c rest)) as
+      (buf1 & idx1 & del1 & ans1 & taken & r1 & kept1 & E1 & J1 & A1 & L1 & R1); [lia|].
+  cbn [app] in E1. rewrite E1.
+  assert (Hi1 : (idx1 <= length c)%nat) by (destruct J1 as (H & _); exact H).
+  destruct (df_drain_spec c rest (S (length c)) buf1 idx1 del1 kept1 ans1 [] J1 A1) as
+      (buf2 & idx2 & del2 & ans2 & dropped & r2 & kept2 & E2 & J2 & A2 & R2); [lia|].
+  cbn [app] in E2. rewrite E2.
+  (* the four outcomes, as facts about the two phases *)
+  assert (Hdone : forall o1 o2, df_progress c [] kept1 0 idx1 o1 -> df_progress c kept1 kept2 idx1 idx2 o2 ->
+                  Permutation (kept2 ++ o1 ++ o2 ++ skipn idx2 c) c).
+  { intros o1 o2 P1 P2. pose proof (df_progress_trans c [] kept1 kept2 0 idx1 idx2 o1 o2 P1 P2) as P.
+    unfold df_progress in P. cbn [app skipn] in P. rewrite <- !app_assoc in P. exact P. }
+  destruct R1 as [(Hn1 & P1)|(-> & x1 & P1)]; destruct R2 as [(-> & I2 & P2)|(-> & x2 & P2)].
+  - (* nobody panicked *)
+    destruct r1; try contradiction; cbn [df_vec df_taken df_dropped df_panicked];
+      (exists kept2, []; conj;
+       [ eapply dfJ_final_repr; eauto
+       | pose proof (Hdone _ _ P1 P2) as P; rewrite I2, skipn_all in P; exact P
+       | reflexivity ]).
+  - (* the predicate panicked inside Drop: the vector stays empty *)
+    destruct r1; try contradiction; cbn [df_vec df_taken df_dropped df_panicked];
+      (exists [], (kept2 ++ [x2] ++ skipn idx2 c); conj;
+       [ eapply dfJ_empty_repr; eauto
+       | pose proof (Hdone _ _ P1 P2) as P; cbn [app]; rewrite <- !app_assoc in P;
+         eapply Permutation_trans; [|exact P];
+         rewrite (app_assoc taken dropped); rewrite (app_assoc taken dropped ([x2] ++ skipn idx2 c));
+         apply perm_swap3
+       | discriminate ]).
+  - (* the predicate panicked in the caller's next(); Drop finished the scan *)
+    cbn [df_vec df_taken df_dropped df_panicked].
+    exists kept2, [x1]. conj; [eapply dfJ_final_repr; eauto | | discriminate].
+    pose proof (Hdone _ _ P1 P2) as P. rewrite I2, skipn_all, app_nil_r in P. rewrite <- !app_assoc in P.
+    eapply Permutation_trans; [|exact P].
+    apply Permutation_app_head. apply Permutation_app_head. apply Permutation_app_comm.
+  - (* it panicked twice *)
+    cbn [df_vec df_taken df_dropped df_panicked].
+    exists [], (kept2 ++ [x1] ++ [x2] ++ skipn idx2 c). conj; [eapply dfJ_empty_repr; eauto | | discriminate].
+    pose proof (Hdone _ _ P1 P2) as P. cbn [app]. rewrite <- !app_assoc in P.
+    eapply Permutation_trans; [|exact P].
+    (* taken ++ dropped ++ kept2 ++ x1 ++ x2 ++ s  ~  kept2 ++ taken ++ x1 ++ dropped ++ x2 ++ s *)
+    apply Permutation_trans with (kept2 ++ taken ++ dropped ++ [x1] ++ [x2] ++ skipn idx2 c).
+    + rewrite (app_assoc taken dropped). rewrite (app_assoc taken dropped ([x1] ++ [x2] ++ skipn idx2 c)).
+      apply perm_swap3.
+    + apply Permutation_app_head. apply Permutation_app_head. apply perm_swap3.
+Qed.
+
+(* ---------- with_capacity ---------- *)
+Definition ecfg_ok (e : ecfg) : Prop :=
+  0 < e_size e /\ pow2b (e_align e) = true /\ e_align e < W.
+
+Theorem vwith_capacity_spec e n :
+  ecfg_ok e ->
+  match vwith_capacity e n with
+  | Ret v => repr e v [] /\ (n <= v_cap v \/ e_size e * n = 0) /\ e_size e * n <= ISIZE_MAX
+  | Panic _ => ISIZE_MAX < e_size e * n + (e_align e - 1) \/ ARENA_GRANTS <= e_size e * n
+  end.
+Proof.
+  intros (He & Ha & Haw). unfold vwith_capacity, checked_mul.
+  assert (HW : ISIZE_MAX < W) by (vm_compute; reflexivity).
+  destruct (n * e_size e <? W) eqn:E1.
+  - apply N.ltb_lt in E1.
+    destruct (n * e_size e =? 0) eqn:E0.
+    + apply N.eqb_eq in E0. conj; [apply repr_empty; exact He | right; lia | lia].
+    + apply N.eqb_neq in E0.
+      destruct (layout_ok (n * e_size e) (e_align e)) eqn:EL.
+      * apply layout_ok_spec in EL. destruct EL as (_ & _ & EL).
+        destruct (n * e_size e <? ARENA_GRANTS) eqn:EG.
+        -- unfold repr, v_cap. cbn [v_buf v_len]. rewrite repeat_length. unfold nn. rewrite N2Nat.id.
+           conj; [exists (repeat None (N.to_nat n)); reflexivity | reflexivity | lia | exact He | left; lia | lia].
+        -- apply N.ltb_ge in EG. right. lia.
+      * left. unfold layout_ok in EL. rewrite Ha in EL. apply N.ltb_lt in Haw. rewrite Haw in EL.
+        cbn [andb] in EL. apply N.leb_gt in EL. lia.
+  - apply N.ltb_ge in E1. left. lia.
+Qed.
